@@ -1,8 +1,8 @@
 CONSTANTS
   GC = FALSE
   Broken = "none"
-  MaxLen = 3
-  Family = "syntax"
+  MaxLen = 2
+  Family = "files"
   SharedFiles = FALSE
   SharedSyntax = FALSE
 SPECIFICATION Spec
